@@ -51,6 +51,14 @@ CLOSURES = [
     ("k = 2\nF = x => do {\n  k = k * x\n  g9 = () => k\n  return [k, g9()]\n}", ["k", "x", "g9"], ["(3)"]),
     # a function named like one of its captured names (F8, repaired): the captured value is what it sees
     ("g = 7\nF = () => do {\n  g = () => g\n  return g()\n}", ["g"], ["()"]),
+    # a free name that is still unbound when the function is created (its own name, a forward reference)
+    # comes BEFORE a bound one in the body: the bound one is captured all the same
+    ("k = 10\nF = n => if n <= 0 then 0 else F(n - 1) + k", ["k", "n"], ["(3)"]),
+    ("k = 10\nF = n => if n > 100 then later9 else [k, n]", ["k", "n"], ["(3)"]),
+    ("k = 10\nmkr = step => (n => if n <= 0 then 0 else self9(n - 1) + step + k)\nF = mkr(5)", ["k", "n", "step"], ["(0)"]),
+    # parameters named `inputs` / like the function itself are parameters
+    ("F = inputs => [inputs, 1]", ["inputs"], ["(7)"]),
+    ("F = (F, inputs?) => [F, inputs]", ["inputs"], ["(7)", "(7, 8)"]),
     # surplus arguments for optional parameters are an error from every call site
     ("F = (a, b?) => [a, b]", ["a", "b"], ["(1)", "(1, 2)", "(1, 2, 3)"]),
 ]
